@@ -468,6 +468,10 @@ fn cli_patch(basis: &[u8], delta: &Delta, sc: &Scratch, tag: usize) -> (Option<i
     let op = sc.path(&format!("o{tag}"));
     let _ = std::fs::write(&bp, basis);
     let _ = std::fs::write(&dp, bincode::serialize(delta).unwrap_or_default());
+    // the output path already holds an older, LONGER file (a re-run over a previous result): what is judged is
+    // the file on disk afterwards, so a stale tail counts as wrong bytes
+    let stale = (basis.len() as u64 + delta.source_size.min(1 << 20) + 8192) as usize;
+    let _ = std::fs::write(&op, vec![0xEEu8; stale]);
     let args: Vec<std::ffi::OsString> = vec!["patch".into(), bp.into(), dp.into(), "-o".into(), op.clone().into()];
     let (code, sig, timed_out, err) = run_limited(&args, 20);
     if timed_out {
@@ -482,7 +486,11 @@ fn cli_part(bases: &[Base], evals: &AtomicU64) -> Vec<Violation> {
     {
         let sc = Scratch::new("c05ctl");
         let (code, sig, err, out) = cli_patch(&bases[0].basis, &bases[0].delta, &sc, 0);
-        if code != Some(0) || sig.is_some() || out.map(|o| StrongHash::compute(&o)) != Some(bases[0].delta.checksum) {
+        if code == Some(0) && sig.is_none() && out.as_ref().map(|o| StrongHash::compute(o)) != Some(bases[0].delta.checksum) {
+            // the limit is not the problem: the command succeeded and the file on disk is wrong
+            return vec![Violation::new("ok_on_wrong_bytes", format!("`copia patch` of the UNMUTATED pair exits 0 but the output file ({} bytes; the path held a longer file before) does not hash to the delta's checksum", out.map_or(0, |o| o.len())), json!({"cli": true, "mutations": [], "control": true}))];
+        }
+        if code != Some(0) || sig.is_some() {
             machinery_error(format!("control `copia patch` under RLIMIT_AS failed: code {code:?} sig {sig:?} {err}"));
         }
     }
